@@ -26,6 +26,8 @@ def main():
     fams = [("deps", "Gen_Families"), ("deps2", "Gen_Families"), ("deps4", "Gen_Families"), ("alloc", "Gen_Families"),
             ("abs", "Gen_Families"), ("pert", "Gen_Families"), ("place", "Gen_Families"), ("placeflat", "Gen_Families"),
             ("conveyor", "Gen_Families"), ("pairs", "Gen_Families"), ("dag", "Gen_Families"), ("watch", "Gen_Families"),
+            ("edge", "Gen_Families"), ("fixed", "Gen_Families"), ("half", "Gen_Families"), ("mainwp", "Gen_Families"),
+            ("due", "Gen_Families"),
             ("sub", "Gen_Families"), ("sort", "Gen_Sort"), ("report", "Gen_Report"), ("histC08", "PdesyHist"),
             ("histC18", "PdesyHist")]
     with ThreadPoolExecutor(max_workers=6) as ex:
